@@ -32,6 +32,7 @@ fn main() {
         i += 1;
     }
     if pos.first().map(|s| s.as_str()) == Some("dump") { dump::dump(&repo, &pos[1..]); return; }
+    if pos.first().map(|s| s.as_str()) == Some("dump-impl") { dump::dump_impl(&repo); return; }
     if pos.first().map(|s| s.as_str()) != Some("check") || pos.len() < 2 {
         eprintln!("usage: genlint check <ID> [--tier quick|thorough] [--repo DIR] [--verif DIR] | genlint dump [role-filter] [n]");
         std::process::exit(2);
@@ -56,6 +57,7 @@ fn main() {
         "C17" => props::c17(&cx),
         "C07" => props_tp::c07(&cx),
         "C08" => props_tp::c08(&cx),
+        "C09" => props_tp::c09(&cx),
         "C10" => props_tp::c10(&cx),
         "C11" => props_tp::c11(&cx),
         "C18" => props_tp::c18(&cx),
